@@ -26,7 +26,8 @@ type Config struct {
 	pgcounter       map[pgkey]bool
 	pgcounterprefix map[pgkey]bool
 	pgstack         map[pgkey]bool
-	rate            map[pgkey]float64
+	rate            map[pgkey]float64 // counters
+	stackrate       map[pgkey]float64 // stack counters
 }
 
 type pgkey struct {
@@ -56,6 +57,7 @@ func NewConfig(cfg *telemetry.UploadConfig) *Config {
 	ucfg.pgcounterprefix = make(map[pgkey]bool, len(ucfg.Programs))
 	ucfg.pgstack = make(map[pgkey]bool, len(ucfg.Programs))
 	ucfg.rate = make(map[pgkey]float64)
+	ucfg.stackrate = make(map[pgkey]float64)
 	for _, p := range ucfg.Programs {
 		ucfg.program[p.Name] = true
 		for _, v := range p.Versions {
@@ -73,7 +75,7 @@ func NewConfig(cfg *telemetry.UploadConfig) *Config {
 		}
 		for _, s := range p.Stacks {
 			ucfg.pgstack[pgkey{p.Name, s.Name}] = true
-			ucfg.rate[pgkey{p.Name, s.Name}] = s.Rate
+			ucfg.stackrate[pgkey{p.Name, s.Name}] = s.Rate
 		}
 	}
 	return &ucfg
@@ -111,8 +113,16 @@ func (r *Config) HasStack(program, stack string) bool {
 	return r.pgstack[pgkey{program, stack}]
 }
 
+// Rate returns the rate of the named counter of the program.
 func (r *Config) Rate(program, name string) float64 {
 	return r.rate[pgkey{program, name}]
+}
+
+// StackRate returns the rate of the named stack counter of the program.
+// A stack counter may have the name of a plain counter of the same program;
+// their rates are independent.
+func (r *Config) StackRate(program, name string) float64 {
+	return r.stackrate[pgkey{program, name}]
 }
 
 func set(slice []string) map[string]bool {
